@@ -77,6 +77,13 @@ fn main() {
 		let sys = IndSys::new(&format!("{name}/depth/default+small"), base, ks[..2].to_vec(), ks.clone(), oracle, false);
 		h.go(&sys, &Limits::depth(if thorough { 7 } else { 6 }).wall_secs(600), true);
 		tally!(sys);
+		// (1b) values only: the first candle fed is NOT the construction candle - an instance created from
+		// c0 must already be in the state "c0 has been seen forever" (a wrong seed in `init` that the
+		// prescribed first step would overwrite shows here)
+		if !is_c06 {
+			let sys = IndSys::new(&format!("{name}/depth/first-candle-free"), indicator_configs_small3(name), ks[..2].to_vec(), ks.clone(), oracle, false).with_first_free();
+			h.go(&sys, &Limits::depth(if thorough { 6 } else { 5 }).wall_secs(600), true);
+		}
 		not_exercised.extend(sys.unexercised());
 		// (2) every MA kind in every MA slot and every source, one slot varied at a time
 		let mut kinds = indicator_configs(Some(name), true);
